@@ -323,7 +323,9 @@ func (h *Hub) prepareConnectionInitation(ski string, counter int, entry *api.Mdn
 
 	h.setConnectionAttemptRunning(ski, false)
 
-	if recheck {
+	// the new connection may already be closed again. Closing it could not trigger
+	// a new attempt, as this one was still marked as running
+	if recheck || !h.isSkiConnected(ski) {
 		h.checkAutoReannounce()
 	}
 }
